@@ -186,7 +186,32 @@ func mutateRecord(r *rand.Rand, genuine []byte, cidLen int, other []byte) ([]byt
 	if hdrLen > len(d) {
 		hdrLen = len(d)
 	}
-	switch r.IntN(12) {
+	switch r.IntN(13) {
+	case 11: // legacy framing, a protected epoch, and a body nobody protected
+		epoch := uint16(3 + r.IntN(2))
+		if !unified {
+			epoch = uint16(d[3])<<8 | uint16(d[4])
+		}
+		var body []byte
+		ctype := []byte{CTAlert, CTAlert, CTAppData, CTACK, CTHandshake}[r.IntN(5)]
+		switch ctype {
+		case CTAlert:
+			body = []byte{byte(1 + r.IntN(2)), []byte{0, 10, 20, 40, 80}[r.IntN(5)]}
+		case CTAppData:
+			body = []byte("nobody protected this")
+		case CTACK:
+			for q := uint64(0); q < 8; q++ {
+				body = append(append(body, u64(uint64(epoch))...), u64(q)...)
+			}
+			body = append([]byte{byte(len(body) >> 8), byte(len(body))}, body...)
+		default:
+			body = []byte{24, 0, 0, 1, 0, byte(r.IntN(4)), 0, 0, 0, 0, 0, 1, byte(r.IntN(2))}
+		}
+		rec := []byte{ctype, 0xfe, 0xfd, byte(epoch >> 8), byte(epoch)}
+		rec = append(rec, u64(uint64(0x7000+r.IntN(4096)))[2:]...)
+		rec = append(rec, byte(len(body)>>8), byte(len(body)))
+
+		return append(rec, body...), "legacy-cleartext-in-protected-epoch"
 	case 0: // header bit
 		bit := r.IntN(8 * hdrLen)
 		d[bit/8] ^= 1 << (bit % 8)
